@@ -3,7 +3,7 @@
 //! points at an existing delta set; gvar's per-glyph tuple headers add up.
 //!
 //! Codes: `axis-count:<TABLE>`, `fvar-sizes`, `stat-axis-missing`, `avar-bounds`,
-//! `region-index:<TABLE>`, `region-order:<TABLE>`, `ivd-word-count:<TABLE>`,
+//! `region-index:<TABLE>`, `region-order:<TABLE>`, `ivd-word-count:<TABLE>`, `ivd-size:<TABLE>`,
 //! `varidx-outer:<TABLE>`, `varidx-inner:<TABLE>`, `gvar-offsets`, `gvar-shared-tuples`,
 //! `gvar-shared-index`, `gvar-tuple-headers`, `gvar-data-size`.
 
@@ -186,11 +186,23 @@ fn check_store(table: &str, store: &ItemVariationStore, axes: u32, issues: &mut 
                 );
             }
         }
-        let words = (data.word_delta_count() & 0x7FFF) as u32;
-        if words > data.region_index_count() as u32 {
+        // deltaSets: itemCount rows; the first `words` columns are wide, the rest narrow
+        let words = (data.word_delta_count() & 0x7FFF) as usize;
+        let long_words = data.word_delta_count() & 0x8000 != 0;
+        let columns = data.region_index_count() as usize;
+        if words > columns {
             issues.add(
                 &format!("ivd-word-count:{table}"),
-                format!("{table} ItemVariationData {d}: wordDeltaCount {words} exceeds regionIndexCount {}", data.region_index_count()),
+                format!("{table} ItemVariationData {d}: wordDeltaCount {words} exceeds regionIndexCount {columns}"),
+            );
+            continue;
+        }
+        let (wide, narrow) = if long_words { (4, 2) } else { (2, 1) };
+        let need = data.item_count() as usize * (words * wide + (columns - words) * narrow);
+        if data.delta_sets().len() < need {
+            issues.add(
+                &format!("ivd-size:{table}"),
+                format!("{table} ItemVariationData {d}: {} items x {columns} regions need {need} bytes of deltas, {} are inside the table", data.item_count(), data.delta_sets().len()),
             );
         }
     }
